@@ -93,6 +93,19 @@ def clauses_for(shape, ux, uy):
             bad.add("repeatable")
     except Exception:  # noqa: BLE001
         bad.add("repeatable")
+    # shape only, whatever was laid out before: every proper subtree is laid out on its own first (as when a
+    # laid-out tree is grafted under a new parent), then the whole tree - same coordinates as the fresh layout
+    root2 = build(shape)
+    try:
+        inner = [n for n, d, p in nodes_with_depth(root2) if d > 0 and (n.left is not None or n.right is not None)]
+        for sub in reversed(inner):
+            TreeLayout().layout(sub, ux, uy)
+        TreeLayout().layout(root2, ux, uy)
+        c2 = {p: (n.x, n.y) for n, d, p in nodes_with_depth(root2)}
+        if any(abs(c2[p][0] - coords[p][0]) > EPS or abs(c2[p][1] - coords[p][1]) > EPS for p in coords):
+            bad.add("independent-of-earlier-layouts-of-subtrees")
+    except Exception:  # noqa: BLE001
+        bad.add("independent-of-earlier-layouts-of-subtrees")
     # mirror symmetry (fresh nodes)
     mroot = build(mirror(shape))
     try:
